@@ -25,11 +25,11 @@ Qed.
 
 Lemma response_is_spec w ops p names r :
   wf_world w = true -> forallb wf_op ops = true -> wf_proxy p = true ->
-  fst (generate w (run_cache w [] ops) p names r) = generate_spec w p names r.
+  map erase (fst (generate w (run_cache w [] ops) p names r)) = map erase (generate_spec w p names r).
 Proof.
   intros Hw Hops Hp.
-  destruct (run_pointwise w ops Hw Hops [] (cache_inv_nil w)) as [_ Hc].
-  destruct (generate_spec_ok w _ p names r Hw Hp Hc) as [-> _]. reflexivity.
+  destruct (run_pointwise any_fmt w ops Hw Hops (ok_any w ops) [] (cache_inv_nil _ w)) as (_ & _ & Hc).
+  destruct (generate_spec_ok any_fmt w _ p names r Hw Hp I Hc) as [-> _]. reflexivity.
 Qed.
 
 (* after any history, a proxy without verified references receives only keys of its own verified
@@ -40,8 +40,11 @@ Lemma never_across_namespaces w ops p i names r e cl ns name :
   In e (fst (generate w (run_cache w [] ops) p names r)) -> key_of e = Some (cl, ns, name) ->
   ns = id_ns i /\ cl = p_cluster p /\ authorized w cl ns (id_sa i) = true.
 Proof.
-  intros Hw Hops Hp Hv Hr Hin Hk. rewrite response_is_spec in Hin; auto.
+  intros Hw Hops Hp Hv Hr Hin Hk.
+  apply (in_map erase) in Hin. rewrite response_is_spec in Hin; auto.
+  apply in_map_iff in Hin. destruct Hin as [e' [He' Hin]].
   eapply kube_key_same_namespace; eauto.
+  rewrite <- key_of_erase, He', key_of_erase. exact Hk.
 Qed.
 
 (* the four-case table of filterAuthorizedResources *)
